@@ -64,7 +64,7 @@ if timeout 1500 go test -vet=off -count=1 $pk $extra >/tmp/seedcheck-$$-tests.lo
 (cd "$V" && VERIF_REPO="$WT" timeout 3000 ./check "$ID" "$TIER") >"$D/check.log" 2>&1
 crc=$?
 res check_exit "$crc"
-grep -E "^VIOLATION|^KNOWN-FINDING|^check " "$D/check.log" | cut -c1-300 | head -8
+grep -a -E "^VIOLATION|^KNOWN-FINDING|^check " "$D/check.log" | cut -c1-300 | head -8
 python3 - "$D" "$rc0" "$rc1" "$crc" <<'PY'
 import json,sys,re
 d,rc0,rc1,crc=sys.argv[1],int(sys.argv[2]),int(sys.argv[3]),int(sys.argv[4])
